@@ -5,6 +5,9 @@ import SaphyrVerif.Lemmas.C17Ring
 import SaphyrVerif.Lemmas.C17Prepare
 import SaphyrVerif.Lemmas.C17Render
 import SaphyrVerif.Lemmas.C17Aligned
+import SaphyrVerif.Lemmas.C17Breaks
+import SaphyrVerif.Lemmas.C17Yaml
+import SaphyrVerif.Lemmas.C17Compose
 /-!
 # C17 — rendered error reports are terminal-safe, cropped and show the right line
 
@@ -14,7 +17,8 @@ Helper lemmas live in `SaphyrVerif/Lemmas/C17*.lean`.
 -/
 namespace SaphyrVerif.Props.C17
 open SaphyrVerif SaphyrVerif.Snippet
-open SaphyrVerif.Spec.Snippet (isControl sanitizeChar clean takeRows dropRows row shownLines visibleLine)
+open SaphyrVerif.Spec.Snippet (isControl sanitizeChar clean takeRows dropRows row shownLines visibleLine
+  yamlLines yamlLine IsYamlPosition endsLineAt linesEndedBefore)
 
 /-! ## sanitising -/
 
@@ -166,10 +170,10 @@ theorem window_le_5_lines (text : List Char) (loc : Snippet.Loc) (m : Mapping) (
   rcases hs with hs | ⟨rel, ws, we, _, h1, h2, h3, h4, h5, _, _, hs⟩
   · rw [hs]; simp [shownLines]
   · have hk : we - (ws - 1) ≤ 2 * ctxLines + 1 := by omega
-    have hcw := Lemmas.C17.count_takeRows_le (we - (ws - 1)) (dropRows (ws - 1) (stripBom text))
+    have hcw := Lemmas.C17.count_takeRows_le (we - (ws - 1)) (dropRows (ws - 1) (normBreaks (stripBom text)))
     -- a window with as many line breaks as rows ends with a line break
-    have hfull : (takeRows (we - (ws - 1)) (dropRows (ws - 1) (stripBom text))).count '\n' = we - (ws - 1) →
-        (takeRows (we - (ws - 1)) (dropRows (ws - 1) (stripBom text))).getLast? = some '\n' :=
+    have hfull : (takeRows (we - (ws - 1)) (dropRows (ws - 1) (normBreaks (stripBom text)))).count '\n' = we - (ws - 1) →
+        (takeRows (we - (ws - 1)) (dropRows (ws - 1) (normBreaks (stripBom text)))).getLast? = some '\n' :=
       fun hc => Lemmas.C17.takeRows_full_ends _ _ (by omega) hc
     rcases hs with hs | ⟨hc1, hc2, _⟩
     · rw [hs]
@@ -177,19 +181,21 @@ theorem window_le_5_lines (text : List Char) (loc : Snippet.Loc) (m : Mapping) (
       split
       · omega
       · rename_i hno
-        have : (takeRows (we - (ws - 1)) (dropRows (ws - 1) (stripBom text))).count '\n' ≠ we - (ws - 1) :=
+        have : (takeRows (we - (ws - 1)) (dropRows (ws - 1) (normBreaks (stripBom text)))).count '\n' ≠ we - (ws - 1) :=
           fun hc => hno (.inr (hfull hc))
         omega
     · unfold shownLines
       split
       · omega
       · rename_i hno
-        have : (takeRows (we - (ws - 1)) (dropRows (ws - 1) (stripBom text))).count '\n' ≠ we - (ws - 1) :=
+        have : (takeRows (we - (ws - 1)) (dropRows (ws - 1) (normBreaks (stripBom text)))).count '\n' ≠ we - (ws - 1) :=
           fun hc => hno (.inr (hc2 (hfull hc)))
         omega
 
 /-- (T) `window_contains_error_line`: when a window is stored, it consists of the rows `ws..=we` of the
-(BOM-stripped) text with `ws ≤ rel ≤ we`, where `rel` is the row the location refers to, and its
+(BOM-stripped) text — with its line breaks normalised (`normalize_line_breaks`: a lone CR has become LF, so
+the rows are the lines of the text under the YAML rule, see `window_contains_error_line_yaml`) — with
+`ws ≤ rel ≤ we`, where `rel` is the row the location refers to, and its
 reported first line number is that of row `ws` (so row `rel` is shown under the location's own line
 number). Verbatim windows contain row `rel` literally, preceded by exactly `rel − ws` complete rows;
 storage-cropped windows (lines over 4 KiB / windows over 16 KiB) keep the same row structure (each row
@@ -200,7 +206,7 @@ theorem window_contains_error_line (text : List Char) (loc : Snippet.Loc) (m : M
       (out = [] ∨
        ∃ rel ws, relativeRow m loc.line = some rel ∧ 1 ≤ ws ∧ ws ≤ rel ∧ sl = absoluteRow m ws ∧
          rel - ws ≤ out.count '\n' ∧
-         ((∃ pre post, out = pre ++ row (stripBom text) rel ++ post ∧ pre.count '\n' = rel - ws ∧
+         ((∃ pre post, out = pre ++ row (normBreaks (stripBom text)) rel ++ post ∧ pre.count '\n' = rel - ws ∧
               (pre = [] ∨ pre.getLast? = some '\n')) ∨
           clean out = true)) := by
   obtain ⟨out, sl, h, hs⟩ := Lemmas.C17.cropSourceWindow_spec text loc m r hlen hb hcol
@@ -208,11 +214,11 @@ theorem window_contains_error_line (text : List Char) (loc : Snippet.Loc) (m : M
   rcases hs with hs | ⟨rel, ws, we, hrel, h1, h2, h3, h4, h5, hsl, _, hs⟩
   · exact .inl hs
   · right
-    have hsplit := Lemmas.C17.window_contains_row (stripBom text) ws we rel h1 h2 h3
-    have hcd := Lemmas.C17.count_dropRows (ws - 1) (stripBom text)
-    have hpre_cnt : (takeRows (rel - ws) (dropRows (ws - 1) (stripBom text))).count '\n' = rel - ws :=
+    have hsplit := Lemmas.C17.window_contains_row (normBreaks (stripBom text)) ws we rel h1 h2 h3
+    have hcd := Lemmas.C17.count_dropRows (ws - 1) (normBreaks (stripBom text))
+    have hpre_cnt : (takeRows (rel - ws) (dropRows (ws - 1) (normBreaks (stripBom text)))).count '\n' = rel - ws :=
       Lemmas.C17.count_takeRows_eq _ _ (by omega)
-    have hwcnt : rel - ws ≤ (takeRows (we - (ws - 1)) (dropRows (ws - 1) (stripBom text))).count '\n' := by
+    have hwcnt : rel - ws ≤ (takeRows (we - (ws - 1)) (dropRows (ws - 1) (normBreaks (stripBom text)))).count '\n' := by
       rw [hsplit, List.count_append, List.count_append, hpre_cnt]; omega
     refine ⟨rel, ws, hrel, h1, h2, hsl, ?_, ?_⟩
     · rcases hs with hs | ⟨hc1, _, _⟩
@@ -395,18 +401,277 @@ character boundary of the window text; it lies in the row of the location — af
 `row − window_start_row` line breaks, and the window is numbered so that this row carries the
 location's line number (`fmt_prepare_safe`, `window_row_number`); in that row it is preceded by an
 optional ellipsis and a tail of the sanitised characters before the reported column; and the character
-at it is the (sanitised) character in the reported column of the visible line (CR / CRLF stripped), or
-the end of the row for `column = len + 1`. For ALL texts, locations, mappings, radii. -/
+at it is the (sanitised) character in the reported column of the visible line (CR / CRLF stripped) of
+the text with its line breaks normalised — i.e. of the line of the text under the YAML rule (LF, CRLF,
+lone CR; `window_contains_error_line_yaml`) —, or the end of the row for `column = len + 1`. For ALL texts,
+locations, mappings, radii. -/
 theorem marker_at_reported_column (text : List Char) (loc : Snippet.Loc) (m : Mapping) (r : Nat)
     (hlen : text.length + 1 ≤ usizeMax) (hcol : loc.column ≤ usizeMax) (p : Prepared)
     (h : prepare text loc m r = .ok (some p)) :
     ∃ pre rest, p.windowText = pre ++ rest ∧ blen pre = p.localStart ∧
       pre.count '\n' = p.row - p.windowStartRow ∧
-      (rest.head? = ((visibleLine text p.row)[loc.column - 1]?).map sanitizeChar ∨
-        ((visibleLine text p.row)[loc.column - 1]? = none ∧ (rest = [] ∨ rest.head? = some '\n'))) ∧
-      (∃ Q lead j, pre = Q ++ (lead ++ Spec.Snippet.sanitize (((visibleLine text p.row).take (loc.column - 1)).drop j)) ∧
+      (rest.head? = ((visibleLine (normBreaks text) p.row)[loc.column - 1]?).map sanitizeChar ∨
+        ((visibleLine (normBreaks text) p.row)[loc.column - 1]? = none ∧ (rest = [] ∨ rest.head? = some '\n'))) ∧
+      (∃ Q lead j, pre = Q ++ (lead ++ Spec.Snippet.sanitize (((visibleLine (normBreaks text) p.row).take (loc.column - 1)).drop j)) ∧
         (Q = [] ∨ Q.getLast? = some '\n') ∧ (lead = [] ∨ lead = [ellipsis])) :=
   Lemmas.C17.prepare_caret text loc m r hlen hcol p h
+
+/-! ## the shown line is the line YAML means (fix of finding `C17-lone-cr-line-break`)
+
+A reported `Location` counts lines as the YAML parser does: a line ends at LF, at CRLF (one break) and at
+a lone CR (`Spec.Snippet.yamlLines`). Before the fix the snippet code split lines at LF only, so a text
+with a lone CR was rendered with the wrong line under the location's line number. Every entry point now
+rewrites the text with `normalize_line_breaks` first. -/
+
+/-- (T) the key fact of the repair: line `k` of a text under the YAML rule is exactly what the `\n`-based
+helpers see as row `k` (without its `\n` / `\r\n`) of the text rewritten by `normalize_line_breaks`, and
+both have the same number of lines. For ALL texts. -/
+theorem normalized_rows_are_yaml_lines (text : List Char) :
+    (yamlLines text).length = (normBreaks text).count '\n' + 1 ∧
+    ∀ k, 1 ≤ k → k ≤ (yamlLines text).length → yamlLine text k = some (visibleLine (normBreaks text) k) := by
+  refine ⟨Lemmas.C17.yamlLines_length text, fun k h1 h2 => ?_⟩
+  rw [Lemmas.C17.yamlLines_length] at h2
+  exact Lemmas.C17.yamlLine_eq_visible text k h1 h2
+
+/-- (T) `normalize_line_breaks` keeps every byte offset, length and character column (a lone CR and the
+LF that replaces it are one byte each), changes nothing in a text whose line breaks are LF / CRLF only
+(it is idempotent), and commutes with stripping the byte-order mark. -/
+theorem normalize_line_breaks_preserves (text : List Char) :
+    (normBreaks text).length = text.length ∧ blen (normBreaks text) = blen text ∧
+    normBreaks (normBreaks text) = normBreaks text ∧ normBreaks (stripBom text) = stripBom (normBreaks text) :=
+  ⟨Lemmas.C17.normBreaks_length text, Lemmas.C17.normBreaks_blen text, Lemmas.C17.normBreaks_idem text,
+    Lemmas.C17.normBreaks_stripBom text⟩
+
+/-- (T) `fragment_lines_are_text_lines`: cut ANY text after a complete line break (`P` is empty, ends with
+LF, or ends with a CR that is not followed by LF): the lines of the whole under the YAML rule are the
+complete lines of `P` followed by the lines of the rest `R`, so line `j` of `R` is line
+`(lines of P) − 1 + j` of the text. (This is why a fragment with a line offset — reader snapshots, stored
+windows — can be rendered like a whole text.) -/
+theorem fragment_lines_are_text_lines (P R : List Char)
+    (h : P = [] ∨ P.getLast? = some '\n' ∨ (P.getLast? = some '\r' ∧ R.head? ≠ some '\n')) :
+    yamlLines (P ++ R) = (yamlLines P).dropLast ++ yamlLines R ∧
+    ∀ j, 1 ≤ j → yamlLine (P ++ R) ((yamlLines P).length - 1 + j) = yamlLine R j :=
+  ⟨Lemmas.C17.yamlLines_append P R h, fun j hj => Lemmas.C17.yamlLine_append P R h j hj⟩
+
+/-- (E) cutting `a⏎b⏎␊c` after the lone CR and after the CRLF pair -/
+example : yamlLines ("a\r".toList ++ "b\r\nc".toList) = ["a".toList, "b".toList, "c".toList] ∧
+    yamlLine ("a\rb\r\n".toList ++ "c".toList) (3 - 1 + 1) = yamlLine "c".toList 1 := by decide
+
+/-- (T) `window_contains_error_line_yaml_partial` — the statement the code violated before the fix, for
+every NON-EMPTY text (see `window_contains_error_line_yaml` for the statement over all texts and
+`window_contains_error_line_yaml_empty_counterexample` for the excluded case): take ANY non-empty text,
+ANY line mapping, radius, and ANY location whose line (mapped to row `rel` of the text) exists under the
+YAML line-break rule (LF, CRLF, lone CR) with content `line`, and whose column is a position on that line
+(`1 ≤ column ≤ len + 1`). Then the window / span computation shared by `Snippet::fmt_or_fallback`
+(annotate-snippets) and the crate's own window renderer DOES yield a window (never the plain-message
+fallback, never a panic), and in it:
+* the row of the location is `rel`, the window starts at a row `ws` with `1 ≤ ws ≤ rel ≤ we`,
+  `we − ws ≤ 4`, and is numbered from `absoluteRow m ws` — so the row carrying the location's own line
+  number (`window_row_number`) is row `rel`;
+* the primary span start is a character boundary of the (terminal-clean) window text, after exactly
+  `rel − ws` line breaks — i.e. in the shown row with the location's line number;
+* in that row it is preceded by an optional ellipsis and a tail of the (sanitised) characters of the YAML
+  line `line` before the reported column, and the character at it is the (sanitised) character of `line` in
+  the reported column — or the end of the row for `column = len + 1`.
+So the row shown under the location's line number is YAML line `line`, with the marker under the
+reported column. -/
+theorem window_contains_error_line_yaml_partial (text : List Char) (loc : Snippet.Loc) (m : Mapping)
+    (r rel : Nat) (line : List Char)
+    (hlen : text.length + 1 ≤ usizeMax) (hcol : loc.column ≤ usizeMax)
+    (hne : text ≠ [])
+    (hrel : relativeRow m loc.line = some rel) (hline : yamlLine text rel = some line)
+    (hc1 : 1 ≤ loc.column) (hc2 : loc.column ≤ line.length + 1) :
+    ∃ p, prepare text loc m r = .ok (some p) ∧
+      p.row = rel ∧ 1 ≤ p.windowStartRow ∧ p.windowStartRow ≤ rel ∧ rel ≤ p.windowEndRow ∧
+      p.windowEndRow - p.windowStartRow ≤ 2 * ctxLines ∧
+      p.displayStartRow = absoluteRow m p.windowStartRow ∧ clean p.windowText = true ∧
+      ∃ pre rest, p.windowText = pre ++ rest ∧ blen pre = p.localStart ∧
+        pre.count '\n' = rel - p.windowStartRow ∧
+        (rest.head? = (line[loc.column - 1]?).map sanitizeChar ∨
+          (line[loc.column - 1]? = none ∧ (rest = [] ∨ rest.head? = some '\n'))) ∧
+        (∃ Q lead j, pre = Q ++ (lead ++ Spec.Snippet.sanitize ((line.take (loc.column - 1)).drop j)) ∧
+          (Q = [] ∨ Q.getLast? = some '\n') ∧ (lead = [] ∨ lead = [ellipsis])) := by
+  obtain ⟨p, hp, ok⟩ := Lemmas.C17.prepare_yaml text loc m r rel line hlen hcol hne hrel hline hc1 hc2
+  exact ⟨p, hp, ok.row_eq, ok.ws_pos, ok.ws_le, ok.row_le, ok.height, ok.display, ok.clean, ok.marker⟩
+
+/-- (F) `window_contains_error_line_yaml_empty_counterexample`: the statement "for EVERY text and every
+YAML position a window with the line is rendered" is false for the empty text: `(1, 1)` is a position of
+the empty text under the YAML rule (its single, empty line), but no window is rendered for it — the
+renderers fall back to the plain message (`line_starts` of an empty text is empty). There is no line
+to show; this is the only excluded case (`window_contains_error_line_yaml`). -/
+theorem window_contains_error_line_yaml_empty_counterexample :
+    IsYamlPosition [] 1 1 ∧ ∀ (m : Mapping) (r : Nat), prepare [] ⟨1, 1⟩ m r = .ok none :=
+  ⟨⟨[], rfl, Nat.le_refl _, Nat.le_refl _⟩, fun m r => Lemmas.C17.prepare_nil ⟨1, 1⟩ m r⟩
+
+/-- (T) `window_contains_error_line_yaml` — over ALL texts: for every text, line mapping, radius and every
+location that is a position of the text under the YAML line-break rule (its line, mapped to row `rel`,
+exists under LF / CRLF / lone-CR splitting; `1 ≤ column ≤ len + 1`): either the text is empty and the
+plain-message fallback is taken (nothing to show), or a window is rendered whose row numbered with the
+location's line is that YAML line, with the marker under the character in the reported column (all the
+conclusions of `window_contains_error_line_yaml_partial`). -/
+theorem window_contains_error_line_yaml (text : List Char) (loc : Snippet.Loc) (m : Mapping) (r rel : Nat)
+    (hlen : text.length + 1 ≤ usizeMax) (hcol : loc.column ≤ usizeMax)
+    (hrel : relativeRow m loc.line = some rel) (hpos : IsYamlPosition text rel loc.column) :
+    (text = [] ∧ prepare text loc m r = .ok none) ∨
+    ∃ line p, yamlLine text rel = some line ∧ prepare text loc m r = .ok (some p) ∧
+      p.row = rel ∧ 1 ≤ p.windowStartRow ∧ p.windowStartRow ≤ rel ∧ rel ≤ p.windowEndRow ∧
+      p.windowEndRow - p.windowStartRow ≤ 2 * ctxLines ∧
+      p.displayStartRow = absoluteRow m p.windowStartRow ∧ clean p.windowText = true ∧
+      ∃ pre rest, p.windowText = pre ++ rest ∧ blen pre = p.localStart ∧
+        pre.count '\n' = rel - p.windowStartRow ∧
+        (rest.head? = (line[loc.column - 1]?).map sanitizeChar ∨
+          (line[loc.column - 1]? = none ∧ (rest = [] ∨ rest.head? = some '\n'))) ∧
+        (∃ Q lead j, pre = Q ++ (lead ++ Spec.Snippet.sanitize ((line.take (loc.column - 1)).drop j)) ∧
+          (Q = [] ∨ Q.getLast? = some '\n') ∧ (lead = [] ∨ lead = [ellipsis])) := by
+  by_cases hne : text = []
+  · left
+    subst hne
+    exact ⟨rfl, Lemmas.C17.prepare_nil loc m r⟩
+  · right
+    obtain ⟨line, hline, hc1, hc2⟩ := hpos
+    obtain ⟨p, h⟩ := window_contains_error_line_yaml_partial text loc m r rel line hlen hcol hne hrel hline hc1 hc2
+    exact ⟨line, p, hline, h⟩
+
+/-- (T) `stored_window_row_is_yaml_line`: the same for what `with_snippet` stores
+(`crop_source_window`): when a window is stored verbatim for a location whose (mapped) row `rel` is a
+line of the BOM-stripped text under the YAML rule, the window contains — after exactly `rel − ws` complete
+rows, `ws` being the row its first line number stands for — a row whose content (without its line break)
+is that YAML line; a lone CR that ended the line in the input has become LF in the stored text. (Storage-cropped
+windows, for lines over 4 KiB, keep the row structure: `window_contains_error_line`.) -/
+theorem stored_window_row_is_yaml_line (text : List Char) (loc : Snippet.Loc) (m : Mapping) (r : Nat)
+    (hlen : text.length + 1 ≤ usizeMax) (hb : blen text ≤ usizeMax) (hcol : loc.column ≤ usizeMax) :
+    ∃ out sl, cropSourceWindow text loc m r = .ok (out, sl) ∧
+      (out = [] ∨
+       ∃ rel ws, relativeRow m loc.line = some rel ∧ 1 ≤ ws ∧ ws ≤ rel ∧ sl = absoluteRow m ws ∧
+         ((∃ pre body post, out = pre ++ body ++ post ∧ pre.count '\n' = rel - ws ∧
+              (pre = [] ∨ pre.getLast? = some '\n') ∧
+              ∀ line, yamlLine (stripBom text) rel = some line →
+                Spec.Snippet.stripCr (Spec.Snippet.stripNl body) = line) ∨
+          clean out = true)) := by
+  obtain ⟨out, sl, h, hs⟩ := window_contains_error_line text loc m r hlen hb hcol
+  refine ⟨out, sl, h, ?_⟩
+  rcases hs with hs | ⟨rel, ws, h1, h2, h3, h4, _, hs⟩
+  · exact .inl hs
+  · right
+    refine ⟨rel, ws, h1, h2, h3, h4, ?_⟩
+    rcases hs with ⟨pre, post, e1, e2, e3⟩ | hs
+    · left
+      refine ⟨pre, _, post, e1, e2, e3, fun line hline => ?_⟩
+      obtain ⟨_, _, hl⟩ := (Lemmas.C17.yamlLine_some_iff (stripBom text) rel line).mp hline
+      rw [hl]; rfl
+    · exact .inr hs
+
+/-- (T) `stored_region_renders_yaml_line` — the string entry points' whole path (`with_snippet` stores a
+region, the error is rendered from it later), for texts of at most 4 KiB (no line reaches the storage-crop
+threshold; longer lines are cropped and sanitised at storage time, `window_contains_error_line`): take
+ANY such text with a non-empty body, ANY mapping and radius `≠ 0`, and ANY location that is a position of
+the BOM-stripped text under the YAML rule (row `rel`, content `line`, `1 ≤ column ≤ len + 1`). Then a
+region IS stored, rendering from the stored regions DOES yield a window for the location, the window row
+that carries the location's own line number is the row of the marker, and the marker stands right before
+the (sanitised) character of YAML line `line` in the reported column (end of row for `column = len + 1`),
+preceded in its row by an optional ellipsis and a tail of the sanitised characters of `line` before that
+column. -/
+theorem stored_region_renders_yaml_line (text : List Char) (loc : Snippet.Loc) (m : Mapping) (r rel : Nat)
+    (line : List Char)
+    (hlen : text.length + 1 ≤ usizeMax) (hcol : loc.column ≤ usizeMax) (hl : loc.line + 1 ≤ usizeMax)
+    (hsmall : blen text ≤ storageCropLine) (hr : r ≠ 0) (hne : stripBom text ≠ [])
+    (hrel : relativeRow m loc.line = some rel) (hline : yamlLine (stripBom text) rel = some line)
+    (hc1 : 1 ≤ loc.column) (hc2 : loc.column ≤ line.length + 1) :
+    ∃ reg p, regionFor text loc m r = .ok (some reg) ∧ renderPrepare [reg] loc r = .ok (some p) ∧
+      p.windowStartRow ≤ p.row ∧ p.displayStartRow + (p.row - p.windowStartRow) = loc.line ∧
+      clean p.windowText = true ∧
+      ∃ pre rest, p.windowText = pre ++ rest ∧ blen pre = p.localStart ∧
+        pre.count '\n' = p.row - p.windowStartRow ∧
+        (rest.head? = (line[loc.column - 1]?).map sanitizeChar ∨
+          (line[loc.column - 1]? = none ∧ (rest = [] ∨ rest.head? = some '\n'))) ∧
+        (∃ Q lead j, pre = Q ++ (lead ++ Spec.Snippet.sanitize ((line.take (loc.column - 1)).drop j)) ∧
+          (Q = [] ∨ Q.getLast? = some '\n') ∧ (lead = [] ∨ lead = [ellipsis])) := by
+  have hu := Lemmas.C17.isUnknown_false_of_col loc hc1
+  obtain ⟨hr1, hr2, hlv⟩ := (Lemmas.C17.yamlLine_some_iff (stripBom text) rel line).mp hline
+  obtain ⟨ws, we, f1, f2, f3, f5, hwne, hcsw⟩ :=
+    Lemmas.C17.cropSourceWindow_small text loc m r rel hlen hsmall hu hrel hne hr1 hr2
+  generalize hw : takeRows (we - (ws - 1)) (dropRows (ws - 1) (normBreaks (stripBom text))) = w at hwne hcsw
+  -- the stored region
+  have hreg : regionFor text loc m r = .ok (some ⟨w, absoluteRow m ws, regionEndLine text m loc⟩) := by
+    unfold regionFor
+    rw [if_neg (by intro h; rcases h with h | h; exact hr h; rw [hu] at h; cases h), hcsw]
+    simp only [Lemmas.C17.res_bind_ok]
+    rw [if_neg (by intro h; exact hwne (List.isEmpty_iff.mp h))]
+    rfl
+  -- rendering from it
+  have hrender : renderPrepare [⟨w, absoluteRow m ws, regionEndLine text m loc⟩] loc r =
+      prepare w loc (some (absoluteRow m ws)) r := by
+    unfold renderPrepare
+    rw [if_neg (by
+      intro h
+      rcases h with h | h | h
+      · exact hr h
+      · cases h
+      · rw [hu] at h; cases h)]
+    have hpick : pickRegion [⟨w, absoluteRow m ws, regionEndLine text m loc⟩] loc =
+        some ⟨w, absoluteRow m ws, regionEndLine text m loc⟩ := by
+      unfold pickRegion
+      cases hcov : (⟨w, absoluteRow m ws, regionEndLine text m loc⟩ : Region).covers loc <;>
+        simp [List.find?_cons, hcov]
+    rw [hpick]
+  have hnum := window_row_number m loc.line rel ws hrel f1 f2 hl
+  have hrel' : relativeRow (some (absoluteRow m ws)) loc.line = some (rel - ws + 1) := by
+    simp only [relativeRow]
+    rw [if_neg (by omega)]
+    have e : loc.line - absoluteRow m ws = rel - ws := by omega
+    have hctx : ctxLines = 2 := rfl
+    rw [e, Lemmas.C17.satAdd_eq _ _ (by omega)]
+  have hline' : yamlLine w (rel - ws + 1) = some line := by
+    rw [← hw, hlv]
+    exact Lemmas.C17.window_yaml_line (normBreaks (stripBom text)) (Lemmas.C17.normBreaks_idem _) ws we rel f1 f2 f3 hr2
+  have hwlen : w.length + 1 ≤ usizeMax := by
+    rw [← hw]
+    have a1 := Lemmas.C17.takeRows_length_le (we - (ws - 1)) (dropRows (ws - 1) (normBreaks (stripBom text)))
+    have a2 := Lemmas.C17.dropRows_length_le (ws - 1) (normBreaks (stripBom text))
+    have a3 := Lemmas.C17.normBreaks_stripBom_length_le text
+    omega
+  obtain ⟨p, hp, ok⟩ := Lemmas.C17.prepare_yaml w loc (some (absoluteRow m ws)) r (rel - ws + 1) line hwlen hcol
+    hwne hrel' hline' hc1 hc2
+  refine ⟨_, p, hreg, by rw [hrender]; exact hp, by rw [ok.row_eq]; exact ok.ws_le, ?_, ok.clean, ?_⟩
+  · rw [ok.display, ok.row_eq]
+    exact window_row_number (some (absoluteRow m ws)) loc.line (rel - ws + 1) p.windowStartRow hrel' ok.ws_pos ok.ws_le hl
+  · obtain ⟨pre, rest, c1, c2, c3, c4, c5⟩ := ok.marker
+    exact ⟨pre, rest, c1, c2, by rw [ok.row_eq]; exact c3, c4, c5⟩
+
+/-- (E) the hypotheses of `stored_region_renders_yaml_line` on the witness of the finding (with a byte-order
+mark in front), location line 2 column 8 -/
+example : blen "\uFEFFname: x\rcount: zz\nflag: true".toList ≤ storageCropLine ∧
+    stripBom "\uFEFFname: x\rcount: zz\nflag: true".toList ≠ [] ∧ relativeRow none 2 = some 2 ∧
+    yamlLine (stripBom "\uFEFFname: x\rcount: zz\nflag: true".toList) 2 = some "count: zz".toList ∧
+    8 ≤ "count: zz".toList.length + 1 := by decide
+
+/-- (E) the witness of the finding: `name: x⏎count: zz␊flag: true` (⏎ = lone CR), location line 2
+column 8. Line 2 under the YAML rule is `count: zz`; the window shows it as its second row and the span
+starts at byte 15 = 7 bytes into that row, on the first `z` (before the fix row 2 was `flag: true`). -/
+example : yamlLine "name: x\rcount: zz\nflag: true".toList 2 = some "count: zz".toList ∧
+    (prepare "name: x\rcount: zz\nflag: true".toList ⟨2, 8⟩ none 64).isOk = true ∧
+    (match prepare "name: x\rcount: zz\nflag: true".toList ⟨2, 8⟩ none 64 with
+     | .ok (some p) => p.windowText == "name: x\ncount: zz\nflag: true".toList && p.localStart == 15 &&
+         p.windowStartRow == 1 && p.displayStartRow == 1
+     | _ => false) = true := by
+  refine ⟨by decide, by decide +kernel, by decide +kernel⟩
+
+/-- (E) the hypotheses of `window_contains_error_line_yaml_partial` on a mixed-break text
+(`a⏎bc⏎␊d␊⏎e`: lone CR, CRLF, LF, lone CR): the five YAML lines, and location (3, 1) on line `d`,
+(5, 2) at the end of the last line -/
+example : yamlLines "a\rbc\r\nd\n\re".toList = ["a".toList, "bc".toList, "d".toList, [], "e".toList] ∧
+    IsYamlPosition "a\rbc\r\nd\n\re".toList 3 1 ∧ IsYamlPosition "a\rbc\r\nd\n\re".toList 5 2 ∧
+    relativeRow none 3 = some 3 ∧
+    (match prepare "a\rbc\r\nd\n\re".toList ⟨3, 1⟩ none 64 with
+     | .ok (some p) => p.windowText == "a\nbc\nd\n\ne".toList && p.localStart == 5 && p.row == 3
+     | _ => false) = true := by
+  refine ⟨by decide, ⟨"d".toList, by decide, by decide, by decide⟩, ⟨"e".toList, by decide, by decide, by decide⟩,
+    rfl, by decide +kernel⟩
+
+/-- (E) the crate's own window renderer on the witness of the finding, reader-style fragment starting at
+line 1: line 2 is `count: zz` and the caret is under column 8 -/
+example : fmtWindow "name: x\rcount: zz\nflag: true".toList ⟨2, 8⟩ (some 1) "invalid".toList 64 =
+    .ok "  |\n1 | name: x\n2 | count: zz\n  |        ^ invalid\n3 | flag: true\n  |\n".toList := by decide +kernel
 
 /-- (T) `fmt_window_safe` (snippet part of C01) and cleanliness of its output: the crate's own window
 renderer `fmt_snippet_window_with_mapping_or_fallback` never panics — in particular
@@ -439,15 +704,16 @@ theorem absoluteRow_add (m : Mapping) (ws d : Nat) (h1 : 1 ≤ ws) (hs : m.getD 
 /-- (T) `region_lines_exact` (fix of finding `C17-region-end-line-overcount`): the region stored by
 `with_snippet` / `with_snippet_offset` for a location records exactly the lines of its window: it
 starts at the absolute line of the window's first row `ws` and ends at the absolute line of its last
-row `we = min(rel + 2, number of rows of the text)` — the empty line after a final line break of the
-text being a row of the text, the empty line after the window's own final line break not. -/
+row `we = min(rel + 2, number of rows of the text)` — rows under the YAML rule (LF, CRLF, lone CR: the
+line feeds of the normalised text), the empty line after a final line break of the text being a row of
+the text, the empty line after the window's own final line break not. -/
 theorem region_lines_exact (text : List Char) (loc : Snippet.Loc) (m : Mapping) (r : Nat)
     (hlen : text.length + 1 ≤ usizeMax) (hb : blen text ≤ usizeMax) (hcol : loc.column ≤ usizeMax)
     (hline : loc.line + text.length + ctxLines + 2 ≤ usizeMax) :
     ∃ res, regionFor text loc m r = .ok res ∧
       ∀ reg, res = some reg →
         ∃ rel ws we, relativeRow m loc.line = some rel ∧ 1 ≤ ws ∧ ws ≤ rel ∧ rel ≤ we ∧
-          we = min (rel + ctxLines) ((stripBom text).count '\n' + 1) ∧
+          we = min (rel + ctxLines) ((normBreaks (stripBom text)).count '\n' + 1) ∧
           reg.startLine = absoluteRow m ws ∧ reg.endLine = absoluteRow m we ∧
           absoluteRow m ws + (rel - ws) = loc.line ∧ absoluteRow m we = absoluteRow m ws + (we - ws) := by
   unfold regionFor
@@ -471,9 +737,11 @@ theorem region_lines_exact (text : List Char) (loc : Snippet.Loc) (m : Mapping) 
           intro ht; rw [ht] at h
           simp [cropSourceWindow] at h
           exact hne h.1
-        have hcnt := Lemmas.C17.stripBom_count_nl text
+        have hcnt := Lemmas.C17.normBreaks_stripBom_count_nl text
         have hlc := Lemmas.C17.lineCount_eq text htne
-        have hcl : text.count '\n' ≤ text.length := List.count_le_length
+        have hcl : (normBreaks text).count '\n' ≤ text.length := by
+          have := List.count_le_length (a := '\n') (l := normBreaks text)
+          rw [Lemmas.C17.normBreaks_length] at this; exact this
         have hnum := window_row_number m loc.line rel ws hrel h1 h2 (by omega)
         have hrelsat : satAdd rel ctxLines = rel + ctxLines := by
           apply Lemmas.C17.satAdd_eq
@@ -554,34 +822,48 @@ snapshot is such a window: reads stop at arbitrary byte positions and eviction i
 `trim_to_utf8_boundaries_with_line` never panics, returns valid UTF-8 — exactly the encoding of a
 contiguous piece `mid` of the stream's characters (so `String::from_utf8_lossy` in `lib.rs` changes
 nothing) — advances the start offset by the `k` continuation bytes it dropped, and keeps the start
-line, which is right because none of the dropped bytes is a line break. -/
+line, which is right because none of the dropped bytes is, or is part of, a line break (no LF among
+them, and no line of the stream — YAML rule: LF, CRLF, lone CR — ends within them). -/
 theorem ring_trim_utf8 (cs : List Char) (a b sl : Nat) (hab : a ≤ b) (hb : b ≤ (encode cs).length)
     (hsl : sl ≤ usizeMax) :
     ∃ k mid, ringTrim (((encode cs).take b).drop a) a sl = .ok (a + k, sl, encode mid) ∧ mid <:+: cs ∧
       decode (encode mid) = some mid ∧
-      ((encode cs).take (a + k)).count 0x0A = ((encode cs).take a).count 0x0A := by
+      ((encode cs).take (a + k)).count 0x0A = ((encode cs).take a).count 0x0A ∧
+      linesEndedBefore (encode cs) (a + k) = linesEndedBefore (encode cs) a := by
   obtain ⟨ct, mid, ph, e, h1, h2, h3⟩ := Lemmas.C17.window_decomp cs a b hab hb
-  refine ⟨ct.length, mid, ?_, h2, Lemmas.C17.decode_encode mid, ?_⟩
+  refine ⟨ct.length, mid, ?_, h2, Lemmas.C17.decode_encode mid, ?_, ?_⟩
   · rw [e]; exact Lemmas.C17.ringTrim_spec ct mid ph a sl h1 h3 hsl
   · exact Lemmas.C17.window_line (encode cs) a b hab hb ct (encode mid ++ ph) (by rw [e, List.append_assoc]) h1
+  · exact Lemmas.C17.window_lines_ended (encode cs) a b hab hb ct (encode mid ++ ph)
+      (by rw [e, List.append_assoc]) h1
 
-/-- (T) `ring_window`: after the bytes `bs` went through `push_ring_bytes` (capacity `cap ≥ 1`) the
-ring holds exactly the last `cap` bytes, knows their absolute offset, and its start line is the number
-of evicted line breaks + 1. -/
+/-- (T) `ring_window` (follows the fix of finding `C17-lone-cr-line-break`): after the bytes `bs` went
+through `push_ring_bytes` (capacity `cap ≥ 1`) the ring holds exactly the last `cap` bytes, knows their
+absolute offset, and its start line is 1 + the number of lines that ended within the evicted bytes under
+the YAML rule: an evicted LF, and an evicted CR that is not followed by LF (the byte after it may still be
+in the ring, or be the byte that caused the eviction); the CR of a CRLF pair split by the eviction is not
+counted — the pair's LF, still in the ring, ends that line. -/
 theorem ring_window (cap : Nat) (hcap : 1 ≤ cap) (bs : List Nat) (hlen : bs.length + 2 ≤ usizeMax) :
     (ringPush cap ⟨[], 0, 1, true⟩ 0 bs).buf = bs.drop (bs.length - cap) ∧
     (bs ≠ [] → (ringPush cap ⟨[], 0, 1, true⟩ 0 bs).startOffset = bs.length - cap) ∧
-    (ringPush cap ⟨[], 0, 1, true⟩ 0 bs).startLine = 1 + (bs.take (bs.length - cap)).count 0x0A :=
+    (ringPush cap ⟨[], 0, 1, true⟩ 0 bs).startLine = 1 + linesEndedBefore bs (bs.length - cap) :=
   Lemmas.C17.ringPush_spec cap hcap bs hlen
+
+/-- (E) a ring of 4 bytes over `a⏎b⏎␊c␊⏎d` (⏎ = CR, ␊ = LF): the evicted bytes `a⏎b⏎␊` hold two line ends
+(the lone CR and the CRLF pair); one byte less evicted splits the CRLF pair and only the lone CR counts -/
+example : (ringPush 4 ⟨[], 0, 1, true⟩ 0 [0x61, 0x0D, 0x62, 0x0D, 0x0A, 0x63, 0x0A, 0x0D, 0x64]).startLine = 3 ∧
+    (ringPush 5 ⟨[], 0, 1, true⟩ 0 [0x61, 0x0D, 0x62, 0x0D, 0x0A, 0x63, 0x0A, 0x0D, 0x64]).startLine = 2 ∧
+    (ringPush 5 ⟨[], 0, 1, true⟩ 0 [0x61, 0x0D, 0x62, 0x0D, 0x0A, 0x63, 0x0A, 0x0D, 0x64]).startsLine = false := by
+  decide
 
 /-- (T) `ring_snapshot_utf8`: `get_recent()` on a valid UTF-8 stream, after any amount consumed and
 with any read-ahead allowance: the snapshot is valid UTF-8 (the encoding of a contiguous piece of the
-stream), `end_offset − start_offset` is its length, and `start_line` is 1 + the number of line breaks
-in the stream before `start_offset`. -/
+stream), `end_offset − start_offset` is its length, and `start_line` is 1 + the number of lines of the
+stream (YAML rule: LF, CRLF, lone CR) that end before `start_offset`. -/
 theorem ring_snapshot_utf8 (cap ahead : Nat) (hcap : 1 ≤ cap) (cs : List Char) (consumed : Nat)
     (hlen : (encode cs).length + 2 ≤ usizeMax) :
     ∃ so sl mid, ringRun cap ahead (encode cs) consumed = .ok (so, so + (encode mid).length, sl, encode mid) ∧
-      mid <:+: cs ∧ sl = 1 + ((encode cs).take so).count 0x0A := by
+      mid <:+: cs ∧ sl = 1 + linesEndedBefore (encode cs) so := by
   unfold ringRun
   simp only []
   generalize hn : min consumed (encode cs).length + ahead = n
@@ -600,13 +882,10 @@ theorem ring_snapshot_utf8 (cap ahead : Nat) (hcap : 1 ≤ cap) (cs : List Char)
       omega
     refine ⟨min consumed (encode cs).length, _, [], rfl, List.nil_infix, ?_⟩
     rw [hline, hnil]
-    have : (encode cs).take (min consumed (encode cs).length) = [] := by
-      have h3 := congrArg List.length hnil
-      rw [List.length_take] at h3
-      apply List.eq_nil_of_length_eq_zero
-      rw [List.length_take]
-      simp only [List.length_nil] at h3
-      omega
+    have h3 := congrArg List.length hnil
+    rw [List.length_take] at h3
+    simp only [List.length_nil] at h3
+    have : min consumed (encode cs).length = 0 := by omega
     rw [this]; simp
   · rw [if_neg hemp]
     have hne : (encode cs).take n ≠ [] := by
@@ -619,14 +898,15 @@ theorem ring_snapshot_utf8 (cap ahead : Nat) (hcap : 1 ≤ cap) (cs : List Char)
       by_cases hnl : n ≤ (encode cs).length
       · rw [Nat.min_eq_left hnl]
       · rw [Nat.min_eq_right (by omega), List.take_of_length_le (Nat.le_refl _), List.take_of_length_le (by omega)]
-    have hcnt : ((encode cs).take n).take (((encode cs).take n).length - cap) =
-        (encode cs).take (((encode cs).take n).length - cap) := by
-      rw [List.take_take]; congr 1; rw [List.length_take]; omega
-    obtain ⟨k, mid, ht, hin, _, hl⟩ := ring_trim_utf8 cs (((encode cs).take n).length - cap) ((encode cs).take n).length
-      (1 + (((encode cs).take n).take (((encode cs).take n).length - cap)).count 0x0A) (by omega) hb (by
-        have h1 : (((encode cs).take n).take (((encode cs).take n).length - cap)).count 0x0A ≤
-            (((encode cs).take n).take (((encode cs).take n).length - cap)).length := List.count_le_length
-        have h2 := List.length_take_le (((encode cs).take n).length - cap) ((encode cs).take n)
+    have hpos : 0 < ((encode cs).take n).length := List.length_pos_iff.mpr hne
+    have hcnt : linesEndedBefore ((encode cs).take n) (((encode cs).take n).length - cap) =
+        linesEndedBefore (encode cs) (((encode cs).take n).length - cap) := by
+      have := Lemmas.C17.linesEndedBefore_take (encode cs) ((encode cs).take n).length
+        (((encode cs).take n).length - cap) (by omega)
+      rw [htt] at this; exact this
+    obtain ⟨k, mid, ht, hin, _, _, hl⟩ := ring_trim_utf8 cs (((encode cs).take n).length - cap) ((encode cs).take n).length
+      (1 + linesEndedBefore ((encode cs).take n) (((encode cs).take n).length - cap)) (by omega) hb (by
+        have h1 := Lemmas.C17.linesEndedBefore_le ((encode cs).take n) (((encode cs).take n).length - cap)
         omega)
     rw [htt] at ht
     rw [ht]
@@ -634,18 +914,37 @@ theorem ring_snapshot_utf8 (cap ahead : Nat) (hcap : 1 ≤ cap) (cs : List Char)
     refine ⟨_, _, mid, rfl, hin, ?_⟩
     rw [hl, hcnt]
 
-/-- (T) `reader_snippet_line_aligned` (fix of finding `C17-reader-window-starts-mid-line`): what
-`from_reader` attaches as snippet text — `get_recent()` followed by `line_aligned_text()` — on a valid
-UTF-8 stream, after any amount consumed: never a panic, and a non-empty text `T` is a contiguous piece
-of the stream (`cs = P ++ T ++ S`) that begins at the beginning of a line (`P` is empty or ends with a
-line break) and carries that line's number (`1 +` the line breaks in `P`). So a column of a location on
-any line of `T` counts from the real beginning of that line, and `marker_at_reported_column` applies to
-the fragment exactly as to a whole text; a line whose beginning has been evicted is not in `T`. -/
+/-- (T) `reader_snippet_line_aligned` (fix of finding `C17-reader-window-starts-mid-line`; line breaks
+under the YAML rule since the fix of `C17-lone-cr-line-break`): what `from_reader` attaches as snippet text
+— `get_recent()` followed by `line_aligned_text()` — on a valid UTF-8 stream, after any amount consumed:
+never a panic, and a non-empty text `T` is a contiguous piece of the stream (`cs = P ++ T ++ S`) that
+begins at the beginning of a line: `P` is empty, or ends with LF, or ends with a CR that is not followed by
+LF (a CRLF pair is never split between `P` and `T`); and it carries that line's number: `L` is the number
+of lines of `P` under the YAML rule (`P` ends with a line break, so its last line is the empty line on
+which `T` starts) — line `j` of the fragment (followed by the rest of the stream) under the YAML rule is
+line `L − 1 + j` of the stream. So a column of a location on any line of `T` counts from the real beginning of that
+line, and `marker_at_reported_column` / `window_contains_error_line_yaml` apply to the fragment exactly as
+to a whole text; a line whose beginning has been evicted is not in `T`. -/
 theorem reader_snippet_line_aligned (cap ahead : Nat) (hcap : 1 ≤ cap) (cs : List Char) (consumed : Nat)
     (hlen : (encode cs).length + 2 ≤ usizeMax) :
     ∃ starts T L, ringRunAligned cap ahead (encode cs) consumed = .ok (starts, T, L) ∧
-      (T ≠ [] → ∃ P S, cs = P ++ T ++ S ∧ (P = [] ∨ P.getLast? = some '\n') ∧ L = 1 + P.count '\n') :=
-  Lemmas.C17.ringRunAligned_spec cap ahead hcap cs consumed hlen
+      (T ≠ [] → ∃ P S, cs = P ++ T ++ S ∧
+        (P = [] ∨ P.getLast? = some '\n' ∨ (P.getLast? = some '\r' ∧ T.head? ≠ some '\n')) ∧
+        L = (yamlLines P).length ∧
+        ∀ j, 1 ≤ j → yamlLine cs (L - 1 + j) = yamlLine (T ++ S) j) := by
+  obtain ⟨starts, T, L, h, hT⟩ := Lemmas.C17.ringRunAligned_spec cap ahead hcap cs consumed hlen
+  refine ⟨starts, T, L, h, fun hne => ?_⟩
+  obtain ⟨P, S, hcs, hends, hL⟩ := hT hne
+  refine ⟨P, S, hcs, hends, hL, fun j hj => ?_⟩
+  have hends' : Lemmas.C17.EndsLine P (T ++ S) := by
+    have hh : (T ++ S).head? = T.head? := by
+      cases T with
+      | nil => exact absurd rfl hne
+      | cons c t => rfl
+    unfold Lemmas.C17.EndsLine at hends ⊢
+    rw [hh]; exact hends
+  rw [hcs, List.append_assoc, hL]
+  exact Lemmas.C17.yamlLine_append P (T ++ S) hends' j hj
 
 /-- (E) a ring of capacity 6 over `aé\nb漢\nxyz` consumed to the end: the window starts inside `漢`
 (two continuation bytes are dropped) on line 2 -/
